@@ -160,14 +160,23 @@ CHECKS_K1 = {
     },
     "C06": {
         "text": "As C05 for the aggregating operators. Operators with their own subscribe (scan, last/first/single_or_default_async, "
-                "to_iterable, extrema_by) are proved against their spec machines handler by handler. Composite operators (reduce, "
-                "last, first, single and their _or_default forms, some, all, contains, is_empty) are proved MODULARLY: each operator "
+                "to_iterable, extrema_by, to_set, to_dict, sequence_equal) are proved against their spec machines handler by handler. "
+                "Composite operators (reduce, last, first, single and their _or_default forms, some, all, contains, is_empty, count, sum, "
+                "average, min, max, min_by, max_by) are proved MODULARLY: each operator "
                 "they pipe through is replaced by its contract (its spec machine behind the C01 wrapper), never by its body, and the "
                 "composite's own spec is shown to be refined by that composition under an invariant coupling the stage states; "
                 "short-circuit timing is part of the per-event clause (emission at the deciding element). Empty-input errors, the "
                 "second-element failure of single and None/falsy defaults are paths/models of the same obligations.",
-        "note": _K1_NOTE + " Not yet under contract (hence not covered by this claim): count, sum, average, min, max, min_by, max_by, "
-                "to_set, to_dict, sequence_equal - listed in DESIGN.md §9 as remaining work. Sums are not modelled numerically.",
+        "note": _K1_NOTE + " All operators the property names are under contract (27 contracts). count, sum, average, min, max, min_by, "
+                "max_by are compositions proved over the contracts of reduce / scan / last / map / filter / extrema_by; to_set and to_dict "
+                "are known by their INSERTION HISTORY (the emitted set/dict is an uninterpreted function of the sequence of insertions, "
+                "equal histories give equal containers). A-arith: +, -, / and float() on user elements are total deterministic "
+                "uninterpreted functions (exact integer arithmetic on Python ints); natively they may raise, which both the operators "
+                "and the spec twins turn into on_error (covered by the bounded native cross-check only). A-order: the ordering "
+                "operators of user values are mutually consistent (a < b implies a <= b). average_'s shared seed record is part of the "
+                "invariant (never modified). sequence_equal is proved for two observable arguments (any interleaving of the two "
+                "sources' events; comparer always gets (left, right)); the iterable argument kind goes through from_iterable and is "
+                "covered by the native cross-check only. min/max take Python's ordering of the elements as the default comparer.",
         "technique": "K1 handler refinement + modular composition over callee contracts, SMT (z3 then cvc5); native replay; must-fail mutants",
     },
 }
@@ -288,7 +297,11 @@ CHECKS = {
                 "step emits (sequence equation over an uninterpreted value sort, so None/falsy/duplicate values are models "
                 "the solver may pick), no exception escapes. Inductive over the input history: all lengths, all values, all "
                 "parameters; output timing is part of the per-event clause.",
-        "note": _K1_NOTE,
+        "note": _K1_NOTE + " Under contract: map, filter (plain/indexed), take, skip, take_while (plain/indexed/inclusive), skip_while, "
+                "distinct_until_changed, pairwise, default_if_empty, ignore_elements, take_last, skip_last, take_last_buffer, "
+                "element_at(_or_default), find/find_index, pluck, starmap, materialize, dematerialize. NOT covered by this claim: distinct "
+                "(its HashSet scans a symbolic list with a user comparer - needs a quantified loop invariant that is not written yet) "
+                "and start_with (concat of from_iterable - waits for the C10/C37 contracts).",
         "technique": "K1 handler refinement against spec machines, loop invariants, SMT (z3 then cvc5); native replay of counter-models",
     },
 }
